@@ -187,7 +187,7 @@ Definition dict_out (f : dict) (op : mop) : option out :=
   | MGet k => Some (OText (f k))
   | MRemove k => Some (OPair (match f k with Some v => Some (k, v) | None => None end))
   | MHasKey k => Some (OBool (is_some (f k)))
-  | MMutK _ | MMutV _ | MDelK | MDelV => Some OUnit
+  | MMutK _ | MMutV _ | MDelK | MDelV | MNewPair => Some OUnit
   | _ => None
   end.
 
@@ -246,7 +246,7 @@ Proof. intros. apply msorted_nodup. apply map_sorted_all. Qed.
 
 (* the caller's objects are not the map's: operations on them change nothing *)
 Definition is_caller_op (op : mop) : bool :=
-  match op with MMutK _ | MMutV _ | MDelK | MDelV => true | _ => false end.
+  match op with MMutK _ | MMutV _ | MDelK | MDelV | MNewPair => true | _ => false end.
 
 Theorem map_caller_ops_irrelevant : forall ops m,
   final map_step m (filter (fun op => negb (is_caller_op op)) ops) = final map_step m ops.
